@@ -64,7 +64,7 @@ CHECKS["C05"] = dict(
 CHECKS["C01"] = dict(
     engine="statemachine",
     technique="TLA+ spec StateMachine.tla (reference apply semantics + snapshot/replay persistence; TLC: LiveIsFold, "
-              "SnapshotsExact, RestartExact, ImportRebuildsAllButNamespaces; four Defect_* negative controls), kind-first TLC "
+              "SnapshotsExact, RestartExact, ImportRebuildsAll; four Defect_* negative controls), kind-first TLC "
               "simulation over three alphabets + thin MCP cases exported from the complete state graph of the small MCP model, "
               "replayed on a mini node across real process restarts; real export / import (every request kind an import sends) "
               "judged through restart and compaction; recorded random histories validated by TLC (Trace_StateMachine)",
